@@ -302,5 +302,15 @@ func definesKey(w *World, fn *ssa.Function, key string) bool {
 			}
 		}
 	}
+	// the key may come out of a table the function loops over
+	if ps, err := w.Paths(fn); err == nil {
+		for _, p := range ps {
+			for _, e := range p.Events {
+				if e.Kind == "mapupdate" && len(e.Args) == 1 && e.Args[0].Op == "str" && e.Args[0].S == key && e.Instr.Parent() == fn {
+					return true
+				}
+			}
+		}
+	}
 	return false
 }
